@@ -17,7 +17,7 @@ EXTENDS Scenarios
 
 TargetKinds == {"local", "aux1", "aux2", "aux3", "trans", "selfrec", "mutual", "arrayself", "mapself",
                 "auxarrayself", "anonprop", "anonitems", "anonallof", "anonsibling", "sharedparam", "sharedresp", "diamond",
-                "uptrans", "crosstrans", "recdep", "recmap", "anonimport", "auxcase"}
+                "uptrans", "crosstrans", "recdep", "recmap", "anonimport", "auxcase", "anoncase"}
 Shapes      == {"prim", "object", "arrayref", "tuple", "allof", "map", "nested", "ptrarray", "ref", "additemsref", "nestedfree"}
 HolderKinds == {"prop", "items", "tuple", "addprops", "additems", "allof", "alias", "opbody", "pathbody",
                 "code", "default", "sharedparam", "sharedresp", "nested", "opnested", "opitems",
@@ -28,7 +28,7 @@ SecondKinds == {"none", "code", "prop2", "same", "codes2"}
 Collisions  == {"none", "exact", "case", "twoimports", "gennames", "gennames2"}
 
 AuxTargets  == {"aux1", "aux2", "aux3", "trans", "selfrec", "mutual", "auxarrayself", "diamond", "uptrans", "crosstrans", "recdep", "recmap", "auxcase"}
-AnonTargets == {"anonprop", "anonitems", "anonallof", "anonsibling", "anonimport"}
+AnonTargets == {"anonprop", "anonitems", "anonallof", "anonsibling", "anonimport", "anoncase"}
 SharedPtrTargets == {"sharedparam", "sharedresp"}
 
 Str == Leaf("string")
@@ -130,6 +130,11 @@ TargetOf(t, s) ==
                        rootdefs |-> [N_1 |-> ObjP([N_3 |-> RefTo(<<"aux1", "definitions", "N_2">>), N_4 |-> Int]),
                                      N_2 |-> Mk([type |-> "integer", format |-> "int32"], <<>>)],
                        aux |-> [aux1 |-> AuxDoc([N_2 |-> Body(s, HelperIn("aux1")), N_7 |-> HelperDef])], params |-> <<>>, resps |-> <<>>]
+    \* two pointers (the second one from an extra path, see Assemble) to sibling properties spelled alike up to case: the names generated
+    \* for the two targets collide, whichever is named first
+    [] t = "anoncase" -> [ref |-> <<"root", "definitions", "N_1", "properties", "N_3">>,
+                       rootdefs |-> [N_1 |-> ObjP([N_3 |-> Body(s, HelperIn("root")), C_3 |-> ObjP([N_19 |-> Str])]), N_7 |-> HelperDef],
+                       aux |-> <<>>, params |-> <<>>, resps |-> <<>>]
     [] t = "anonitems" -> [ref |-> <<"root", "definitions", "N_1", "items">>,
                        rootdefs |-> [N_1 |-> Mk([type |-> "array"], [items |-> Body(s, HelperIn("root"))]), N_7 |-> HelperDef],
                        aux |-> <<>>, params |-> <<>>, resps |-> <<>>]
@@ -262,6 +267,7 @@ ValidCombo(t, s, h, h2, c) ==
   /\ (s = "nestedfree" => t = "aux1" /\ h \in {"prop", "alias", "code", "opitems", "unusedalias"})
   /\ (h2 = "codes2" => c # "none" /\ h \in {"prop", "code", "nested", "opbody"})
   /\ (h \in {"refsib", "unuseddef", "additems1"} => t \in {"aux1", "local", "anonprop"} /\ h2 \in {"none", "code"})
+  /\ (t = "anoncase" => s \in {"object", "allof", "nested"} /\ h \in {"prop", "code", "opbody", "items"} /\ c = "none")
   /\ (t = "auxcase" => s \in {"prim", "object"} /\ h \in {"prop", "code", "opbody", "alias"} /\ c = "none")
   /\ (c = "gennames" => h = "nested" /\ t \in {"aux1", "diamond"})
   /\ (c = "gennames2" => h = "allof" /\ t \in {"aux1", "diamond"})
@@ -291,7 +297,10 @@ Assemble(t, s, h, h2, c) ==
       cas    == IF t = "auxcase"
                 THEN ("P_7" :> PathItemWith([get |-> OpId("seventh", [responses |-> Mk(<<>>, ("200" :> Resp([schema |-> RefTo(<<"aux1", "definitions", "C_1">>)])))])]))
                 ELSE <<>>
-      paths  == ("P_1" :> H.path) @@ S2.path @@ C.path @@ dia @@ xp @@ cas
+      acs    == IF t = "anoncase"
+                THEN ("P_8" :> PathItemWith([get |-> OpId("eighth", [responses |-> Mk(<<>>, ("200" :> Resp([schema |-> RefTo(<<"root", "definitions", "N_1", "properties", "C_3">>)])))])]))
+                ELSE <<>>
+      paths  == ("P_1" :> H.path) @@ S2.path @@ C.path @@ dia @@ xp @@ cas @@ acs
       extra  == (IF DOMAIN params = {} THEN <<>> ELSE [parameters |-> Mk(<<>>, params)]) @@
                 (IF DOMAIN resps = {} THEN <<>> ELSE [responses |-> Mk(<<>>, resps)])
       \* a root without any definition has no "definitions" section at all (the code then starts from a nil map)
